@@ -559,6 +559,14 @@ func RunCheck(cs *CheckSpec) int {
 		"runs_per_hour":       int64(float64(total.runs) / wall * 3600),
 		"engines":             infos,
 	}
+	if p := os.Getenv("VERIF_TYPE_SCAN"); p != "" {
+		if b, err := os.ReadFile(p); err == nil {
+			var scan map[string]interface{}
+			if json.Unmarshal(b, &scan) == nil {
+				cov["exported_ssz_types"] = scan
+			}
+		}
+	}
 	rules := []string{}
 	for n, inf := range infos {
 		rules = append(rules, n+": "+inf.Rule)
